@@ -22,6 +22,9 @@ pub mod superminhasher2;
 pub mod invhash;
 pub mod nohasher;
 
+#[cfg(probminhash_verif)]
+pub mod verif;
+
 // hashing stuff
 
 lazy_static! {
